@@ -30,6 +30,9 @@ CLAIMED = {
     'C19': dict(design='DESIGN.md §3 C19', technique='deterministic simulation: process-wide registries as shared state, seeded registration/parse/lookup/use histories, plain-dict reference model compared in full after every op; ddmin replay',
                 text='Seeded search over histories of registrations through the four decorators of both spec versions (fresh, taken, cross-category and rule-breaking names; legal and rule-breaking property lists; the extension_name form) interleaved with parse in strict/custom mode with and without a named version, class_for_type, and construction / round trip / new_version / store traffic of custom instances.',
                 note='Trusts: the naming rules asserted are those in the specification text (type names a-z0-9-, 3-250; 2.1 property names a-z0-9_, 3-250, leading letter; *_ref(s) only on reference properties); unconfirmed rules accept either outcome; objects and observables share one name space.'),
+    'C06': dict(design='DESIGN.md §3 C06', technique='deterministic simulation: environment matrix (interpreter process x PYTHONHASHSEED, uuid4 stream, clock, argument/dictionary order, construction route) with cross-process id-table comparison; independent RFC 8785 + SHA-1 UUIDv5 exactness oracle; ddmin replay',
+                text='Seeded search over observables of every 2.1 SCO type and two registered custom observables, minted through ten routes (kwargs in three orders, parse of shuffled dict / text, re-serialise without id, deepcopy, bundle member, parse_observable, memory store) under two uuid4 streams and three clocks; runs 4k..4k+3 hold the same items and execute in four interpreters with different PYTHONHASHSEED whose id tables the driver compares.',
+                note='Trusts: own RFC 8785 writer (checked against the RFC number vectors) and hashlib.sha1; frozen per-type contributing-property lists; "else first" only exercised with a single non-preferred hash; software.languages never generated.'),
 }
 
 NA = {
